@@ -148,3 +148,16 @@ Proof.
     repeat constructor; cbn; intuition discriminate.
   - vm_compute. repeat split.
 Qed.
+Example C20_sequences_example :
+  Forall (fun c => cmd_dtype c <> TStrOther /\ shape_ok c = true)
+         [n_SET :: [107] :: [1] :: [[78; 88]]; [n_MGET; [107]; [120]]; [n_MSETNX; [97]; []; [98]]; [[70; 79; 79]; [107]]].
+Proof. repeat constructor; cbn; discriminate. Qed.
+Example C20_restricted_example :
+  In [97; 112; 112; 101; 110; 100] string_table /\ existsb (bytes_eqb [97; 112; 112; 101; 110; 100]) nine_lower = false /\
+  cmd_type [65; 112; 80; 101; 78; 100] = TStrOther /\ cmd_type n_BITOP = TStrOther.
+Proof. vm_compute. intuition. Qed.
+Example C20_untouched_example :
+  compress_cmd ex_compress SetGetOnly [n_SETEX; [107]; [49; 48]; [118]; [120]] = CForward [n_SETEX; [107]; [49; 48]; [90; 118]; [120]] /\
+  compress_cmd ex_compress AllowAll [n_MSETNX; [97]; [1]; [98]; [2]; [99]] = CForward [n_MSETNX; [97]; [90; 1]; [98]; [90; 2]; [99]] /\
+  compress_cmd ex_compress SetGetOnly [n_SET; [107]] = CInvalid.
+Proof. vm_compute. repeat split. Qed.
